@@ -186,6 +186,9 @@ class CaseResult(dict):
     pass
 
 
+CURRENT = None
+
+
 def _flat(x):
     if isinstance(x, np.ndarray):
         return list(x.reshape(-1)) if x.ndim else [x[()]]
@@ -301,6 +304,8 @@ class PCase:
     def run(self, seed=0, log=print, replay_dir=None):
         t0 = time.time()
         res = CaseResult(case=self.id, obligations=[], status="ok", notes=[])
+        global CURRENT
+        CURRENT = res
         try:
             self._run(res, seed, log, replay_dir)
         except (Unsupported, Undecided) as ex:
@@ -422,7 +427,7 @@ class PCase:
                     budget = self.budget_s
                     if deadline:
                         budget = max(5.0, min(budget, deadline - time.time() - 20.0))
-                    pr = xl.prove(dom.hyps, goals, alg_atoms=dom.alg_atoms, sq_atoms=dom.sq_atoms,
+                    pr = xl.prove_with_cancellation(dom.hyps, goals, alg_atoms=dom.alg_atoms, sq_atoms=dom.sq_atoms,
                                   inv_atoms=dom.inv_atoms, defined=dom.defined, extra_deg=extra,
                                   budget_s=budget, max_rows=self.max_rows,
                                   log=(log if os.environ.get("VERIF_VERBOSE") else None))
